@@ -124,7 +124,19 @@ def run(ctx):
             return [np.asarray(x.to_array() if hasattr(x, "to_array") else x).tolist() for x in v]
         ref["under_mean0"] = np.asarray(np.mean(pile[gi], axis=0))           # intervals of unequal length: column j averages the intervals that reach j
         ref["under_stranded"] = rows_under(pile[genome.get_intervals(t, stranded=True)])
-        wit = {"rows": rows, "seqs": seqs, "seed": case["seed"]}
+        # in-memory windows (sorted by chromosome and start, ties on start with the longer window first) used to index a streamed track
+        wins = []
+        for c in names:
+            st = 0
+            for _ in range(r.randint(0, 3)):
+                st += r.randint(0, 8)
+                ln = r.randint(2, 9)
+                wins.append((c, st, st + ln))
+                if r.random() < 0.4:
+                    wins.append((c, st, st + r.randint(1, ln - 1)))
+        win_t = Interval([w[0] for w in wins], np.array([w[1] for w in wins], dtype=int), np.array([w[2] for w in wins], dtype=int)) if wins else None
+        ref["under_windows"] = rows_under(pile[genome.get_intervals(win_t)]) if wins else None
+        wit = {"rows": rows, "seqs": seqs, "seed": case["seed"], "windows": wins}
         all_cuts = list(cutsets(n)) if n <= nmax else [tuple(sorted(r.sample(range(1, n), r.randint(0, min(n - 1, 12))))) for _ in range(12)] + [(), tuple(range(1, n))]
         for cuts in all_cuts:
             nt = (repr(rows), cuts) if cuts else None
@@ -181,6 +193,9 @@ def run(ctx):
             sst = genome.get_intervals(NpDataclassStream(iter(pieces(t, cuts)), dataclass=Bed6), stranded=True)
             g = rows_under(bnp.compute(mk_iv().get_pileup()[sst]))
             chk("pipeline:values-under-stranded-intervals", g == ref["under_stranded"], g[:4], ref["under_stranded"][:4])
+            if wins:
+                g = rows_under(bnp.compute(mk_iv().get_pileup()[genome.get_intervals(win_t)]))
+                chk("pipeline:streamed-track[in-memory windows]", g == ref["under_windows"], g[:4], ref["under_windows"][:4])
             # the line re-chunker behind read_chunks(n_lines=...)
             from bionumpy.io.parser import chunk_lines
             cl = list(chunk_lines(iter(pieces(t, cuts)), m))
